@@ -135,8 +135,8 @@ structure Access where
 def accesses : List Access :=
   [ ⟨.data, true, Generated.queueMethodsLocked⟩,     -- push / pop
     ⟨.data, false, Generated.queueMethodsLocked⟩,    -- wait predicate, size, empty
-    ⟨.stopped, true, Generated.queueMethodsLocked⟩,  -- wake_up
-    ⟨.stopped, false, Generated.queueMethodsLocked⟩, -- wait predicate
+    ⟨.stopped, true, Generated.stoppedAccessLocked⟩, -- wake_up
+    ⟨.stopped, false, Generated.stoppedAccessLocked⟩,-- wait predicate
     ⟨.shutting, true, false⟩,                        -- stop()
     ⟨.shutting, false, false⟩ ]                      -- worker loop
 
